@@ -22,13 +22,13 @@ const modPath = "github.com/goptics/varmq"
 
 // libPkgs are the packages whose bodies are subject to the rules.
 var libPkgs = map[string]bool{
-	modPath:                          true,
-	modPath + "/internal/helpers":    true,
+	modPath:                            true,
+	modPath + "/internal/helpers":      true,
 	modPath + "/internal/linkedbuffer": true,
-	modPath + "/internal/linkedlist": true,
-	modPath + "/internal/pool":       true,
-	modPath + "/internal/queues":     true,
-	modPath + "/utils":               true,
+	modPath + "/internal/linkedlist":   true,
+	modPath + "/internal/pool":         true,
+	modPath + "/internal/queues":       true,
+	modPath + "/utils":                 true,
 }
 
 type Prog struct {
@@ -265,15 +265,15 @@ func qualTypeName(t types.Type) string {
 
 // Callee describes the target of a call expression.
 type Callee struct {
-	Key     string       // canonical key of the function or method ("" if not a named function)
-	Fn      *types.Func  // origin function object, if any
-	Var     *types.Var   // func-typed variable, parameter or field being called
-	Field   string       // pkgpath.Type.field when Var is a struct field
-	Builtin string       // name of builtin
-	Conv    bool         // type conversion, not a call
-	Lit     *ast.FuncLit // immediately invoked literal
-	Iface   bool         // method of an interface (dynamic dispatch)
-	Recv    ast.Expr     // receiver expression for method calls
+	Key       string           // canonical key of the function or method ("" if not a named function)
+	Fn        *types.Func      // origin function object, if any
+	Var       *types.Var       // func-typed variable, parameter or field being called
+	Field     string           // pkgpath.Type.field when Var is a struct field
+	Builtin   string           // name of builtin
+	Conv      bool             // type conversion, not a call
+	Lit       *ast.FuncLit     // immediately invoked literal
+	Iface     bool             // method of an interface (dynamic dispatch)
+	Recv      ast.Expr         // receiver expression for method calls
 	RecvIface *types.Interface // static interface (or type-parameter constraint) of the receiver
 	RecvTP    *types.TypeParam // receiver is a value of this type parameter
 }
